@@ -92,6 +92,45 @@ func alphabetFeatures(c *Ctx, alpha []Blk) {
 
 // genC04Ops: puts followed by queries about the same and about colliding keys, lifecycle calls in
 // the middle and at the end
+// kind 0 = blockstore.OpenReadWrite(path), kind 5 = blockstore.OpenReadWriteFile(caller's file, which
+// stays open across Close/Discard: a stray write after Discard lands in the file instead of failing)
+func isBS(kind uint64) bool { return kind == 0 || kind == 5 }
+
+// genC04Lifecycle: a few puts, a lifecycle call, then mostly lifecycle calls and writes again -- what a
+// frozen store must refuse without touching the file
+func genC04Lifecycle(r *RNG, kind uint64, alpha []Blk) VL {
+	ops := VL{}
+	key := func(b Blk) Val { return VB(b.Cid.Bytes()) }
+	for i := 0; i < r.Intn(4); i++ {
+		b := pick(r, alpha)
+		ops = append(ops, VL{VT("put"), key(b), VB(b.Data)})
+	}
+	first := []string{"finalize"}
+	if isBS(kind) {
+		first = []string{"discard", "discard", "close", "finalize", "finalizero"}
+	}
+	ops = append(ops, VL{VT(pick(r, first))})
+	for i := 0; i < 2+r.Intn(6); i++ {
+		b := pick(r, alpha)
+		x := r.Intn(100)
+		switch {
+		case x < 30 && isBS(kind):
+			ops = append(ops, VL{VT(pick(r, []string{"finalizero", "finalize", "close", "discard"}))})
+		case x < 30:
+			ops = append(ops, VL{VT("finalize")})
+		case x < 55:
+			ops = append(ops, VL{VT("put"), key(b), VB(b.Data)})
+		case x < 65:
+			ops = append(ops, VL{VT("roots")})
+		case x < 80:
+			ops = append(ops, VL{VT("has"), key(b)})
+		default:
+			ops = append(ops, VL{VT("get"), key(b)})
+		}
+	}
+	return ops
+}
+
 func genC04Ops(r *RNG, kind uint64, alpha []Blk, n int) VL {
 	ops := VL{}
 	key := func(b Blk) Val { return VB(b.Cid.Bytes()) }
@@ -108,7 +147,7 @@ func genC04Ops(r *RNG, kind uint64, alpha []Blk, n int) VL {
 				}
 				ops = append(ops, VL{VT(pick(r, []string{"has", "get"})), key(q)})
 			}
-		case x < 40 && kind == 0:
+		case x < 40 && isBS(kind):
 			m := VL{VT("putmany")}
 			for j := 0; j < 1+r.Intn(4); j++ {
 				bb := pick(r, alpha)
@@ -119,15 +158,15 @@ func genC04Ops(r *RNG, kind uint64, alpha []Blk, n int) VL {
 			ops = append(ops, VL{VT("has"), key(b)})
 		case x < 70:
 			ops = append(ops, VL{VT("get"), key(b)})
-		case x < 78 && kind == 0:
+		case x < 78 && isBS(kind):
 			ops = append(ops, VL{VT("getsize"), key(b)})
-		case x < 84 && kind == 0:
+		case x < 84 && isBS(kind):
 			ops = append(ops, VL{VT("keys")})
 		case x < 88:
 			ops = append(ops, VL{VT("roots")})
 		case x < 93:
 			ops = append(ops, VL{VT("finalize")})
-		case x < 97 && kind == 0:
+		case x < 97 && isBS(kind):
 			ops = append(ops, VL{VT(pick(r, []string{"finalizero", "close", "discard"}))})
 		default:
 			ops = append(ops, VL{VT("get"), key(b)})
@@ -204,7 +243,7 @@ func c04OpSet(kind uint64, alpha []Blk, reduced bool) []Val {
 			VL{VT("put"), k(a), VB(a.Data)}, VL{VT("put"), k(i), VB(i.Data)}, VL{VT("put"), k(x), VB(x.Data)},
 			VL{VT("has"), k(i)}, VL{VT("get"), k(i)}, VL{VT("get"), k(x)}, VL{VT("finalize")},
 		}
-		if kind == 0 {
+		if isBS(kind) {
 			ops = append(ops, VL{VT("keys")}, VL{VT("finalizero")}, VL{VT("discard")})
 		} else {
 			ops = append(ops, VL{VT("has"), k(a)}, VL{VT("get"), k(a)}, VL{VT("has"), k(x)})
@@ -213,12 +252,12 @@ func c04OpSet(kind uint64, alpha []Blk, reduced bool) []Val {
 	}
 	for _, b := range alpha {
 		ops = append(ops, VL{VT("put"), k(b), VB(b.Data)}, VL{VT("has"), k(b)}, VL{VT("get"), k(b)})
-		if kind == 0 {
+		if isBS(kind) {
 			ops = append(ops, VL{VT("getsize"), k(b)})
 		}
 	}
 	ops = append(ops, VL{VT("roots")}, VL{VT("finalize")})
-	if kind == 0 {
+	if isBS(kind) {
 		ops = append(ops, VL{VT("keys")}, VL{VT("finalizero")}, VL{VT("close")}, VL{VT("discard")})
 	}
 	return ops
@@ -282,6 +321,11 @@ func c04Example(c *Ctx) {
 	}
 	c.Count("history:coq-example")
 	emitC04(c, 0, o, []cid.Cid{cA}, ops)
+	// Example C04_example_callers_file_outs: the same store on a caller-owned file, used after Discard
+	emitC04(c, 5, o, []cid.Cid{cA}, VL{
+		VL{VT("put"), k(cA), VB(data)}, VL{VT("discard")}, VL{VT("roots")}, VL{VT("finalizero")}, VL{VT("finalize")},
+		VL{VT("put"), k(cX), VB(data)}, VL{VT("has"), k(cA)}, VL{VT("roots")},
+	})
 }
 
 func init() {
@@ -294,7 +338,7 @@ func init() {
 		n := 500 * c.Scale
 		for i := 0; i < n; i++ {
 			r := c.R.Fork()
-			kind := uint64(pick(r, []int{0, 0, 0, 1, 1, 1, 2, 3}))
+			kind := uint64(pick(r, []int{0, 0, 0, 5, 5, 1, 1, 1, 2, 3}))
 			o := genWOpts(r)
 			if kind == 3 {
 				o.v1 = true
@@ -314,6 +358,10 @@ func init() {
 				roots = []cid.Cid{}
 			}
 			ops := genC04Ops(r, kind, alpha, 4+r.Intn(36))
+			if r.Chance(25) {
+				ops = genC04Lifecycle(r, kind, alpha)
+				c.Count("history:lifecycle-then-use")
+			}
 			c.Count("history:random")
 			emitC04(c, kind, o, roots, ops)
 		}
@@ -341,12 +389,26 @@ func init() {
 					c.CountN("history:scenario", 3)
 				}
 			}
+			// use after Discard / Close on both blockstore variants; on the caller-owned file (kind 5) the
+			// file is still open, so a finalize that is not refused would write header and index into it
+			for _, kind := range []uint64{0, 5} {
+				for _, v1 := range []bool{false, true} {
+					for _, end := range []string{"discard", "close"} {
+						o := defaultWOpts
+						o.v1 = v1
+						emitC04(c, kind, o, []cid.Cid{a.Cid}, VL{VL{VT("put"), k(a), VB(a.Data)}, VL{VT(end)}, VL{VT("roots")},
+							VL{VT("finalizero")}, VL{VT("finalize")}, VL{VT("put"), k(d), VB(d.Data)}, VL{VT("has"), k(a)}, VL{VT("roots")}})
+						c.Count("history:scenario")
+					}
+				}
+			}
 		}
 		// (1c) the history of the Coq Example C04_example_* (proofs/StoreSpecExamples.v)
 		c04Example(c)
 		// (2) exhaustive small scope.  quick: all histories of length 2 over the full op set and a
 		// 5-block alphabet for 4 rows; thorough: length 3 over the full op set and length 4 over the
-		// reduced op set for the 12 rows, both front-ends
+		// reduced op set for the 12 rows, the three front-ends (blockstore on its own file, blockstore on
+		// the caller's file, storage)
 		r := c.R.Fork()
 		alpha := c04Alphabet(r, true)
 		roots := []cid.Cid{alpha[0].Cid}
@@ -357,10 +419,16 @@ func init() {
 					c04Exhaustive(c, kind, rows[ri], roots, c04OpSet(kind, alpha, false), 2)
 				}
 			}
+			// the blockstore over a caller-owned file: length 2 over the full op set and length 3 over the
+			// reduced op set (put x3, has, get x2, keys, finalize, finalizero, discard)
+			for _, ri := range []int{0, 1} {
+				c04Exhaustive(c, 5, rows[ri], roots, c04OpSet(5, alpha, false), 2)
+				c04Exhaustive(c, 5, rows[ri], roots, c04OpSet(5, alpha, true), 3)
+			}
 			return
 		}
 		for _, o := range rows {
-			for _, kind := range []uint64{0, 1} {
+			for _, kind := range []uint64{0, 1, 5} {
 				c04Exhaustive(c, kind, o, roots, c04OpSet(kind, alpha, false), 3)
 				c04Exhaustive(c, kind, o, roots, c04OpSet(kind, alpha, true), 4)
 			}
